@@ -208,7 +208,7 @@ PROPERTIES = {
                            "ndarray layer) equal the row-by-row definition, output shapes follow the input shape. bounded "
                            "stand-in: random matrices up to 3x3 and point arrays of rank 1-3 on real numpy."},
     "C20": {"harness_modules": ["contracts.c19"],
-            "harness_filter": only("variable_ndarray.construct", "variable_ndarray.variable_indices", "boolean_ndarray.to_list",
+            "harness_filter": only("variable_ndarray.construct", "variable_ndarray.variable_indices", "boolean_ndarray.to_list", "integer_ndarray.from_list",
                                    "ge_polyhedron.to_linalg"),
             "rt": ["rt.arrays:c20_bridges"], "level": "other", "assumptions": S_ALL,
             "explanation": "deductive (symbolic values and bounds, 1-3 variables, every presence pattern and dtype/default mode): "
